@@ -62,6 +62,8 @@ VARIABLES accts, objs, addrIdx, labelIdx, dfltPtr, file, nnew, fault, pend, nops
 
 vars == <<accts, objs, addrIdx, labelIdx, dfltPtr, file, nnew, fault, pend, nops, act, who>>
 view == <<accts, objs, addrIdx, labelIdx, dfltPtr, file, nnew, fault, pend>>
+\* with OneShot the number of calls made decides which thread may start a call: it is part of the state's identity
+viewn == <<view, nops>>
 
 NewIds == {NewIdSeq[i] : i \in 1..Len(NewIdSeq)}
 AllIds == ImportIds \cup NewIds
@@ -358,4 +360,5 @@ AuthCurrent == [][(/\ act'.name \in {"Delete", "ChangePassword", "Open"} /\ act'
 \* exported state: every VIEW variable except file, which is FileOf(accts, objs) by invariant Saved
 State == [accts |-> accts, objs |-> objs, addrIdx |-> addrIdx, labelIdx |-> labelIdx, dfltPtr |-> dfltPtr,
           nnew |-> nnew, fault |-> fault, pend |-> pend]
+StateN == State @@ [nops |-> nops]
 =============================================================================
